@@ -513,6 +513,8 @@ class ProgGen:
         if c < 0.9 and self.vars['dict']:
             d = r.choice(self.vars['dict'])
             return ['for key in sorted(%s):' % d, '    print(key, %s[key])' % d]
+        if c < 0.95:
+            return ["if __name__ == '__main__':", "    print('main', __name__)"]
         v = self.fresh('int')
         self.vars['int'].append(v)
         return ['%s = %s' % (v, r.choice(['True', 'False', 'len("abc")', 'round(2.5)', 'ord("a")']))]
